@@ -50,6 +50,17 @@ Theorem rewrite_is_byte_identical : forall ts,
 Proof. exact rewrite_identical. Qed.
 Print Assumptions rewrite_is_byte_identical.
 
+(* and the writer is injective: two different (well-formed, sorted) table lists never produce the same file *)
+Theorem write_injective : forall ts ts',
+  wf_tables ts -> ssorted (map t_tag ts) -> wf_tables ts' -> ssorted (map t_tag ts') ->
+  write_ttf ts = write_ttf ts' -> ts = ts'.
+Proof.
+  intros ts ts' W S W' S' E.
+  destruct (reread_is_identity ts W S) as (ld & L & R). destruct (reread_is_identity ts' W' S') as (ld' & L' & R').
+  rewrite <- E in L', R'. rewrite L in L'. inversion L'; subst ld'. rewrite <- R, <- R'. reflexivity.
+Qed.
+Print Assumptions write_injective.
+
 (* non-vacuity: a table list with lengths 5 and 0 meets the hypotheses *)
 Example wf_example :
   let ts := [mkTable 1633837924 [1; 2; 3; 4; 5]; mkTable 1633837925 []] in
